@@ -41,11 +41,12 @@ func (c14) Thresholds(tier string) map[string]int64 {
 		"dialogue-prefixes-compared":      3000,
 		"dialogue-prefix-with-error":      300,
 		"probe-repeats-a-history-line":    3000,
+		"veteran-parser-comparisons":      25000,
 	}
 }
 
 func (c14) Rule() string {
-	return "case = 20 pairs (history, probe line) on one parser value each: the history is 0-8 lines drawn from the well-formed generator of C13 and from the hostile generators of C15 (so histories contain failing parses, including parses that fail after markers were already read and lines with open-form replacement markers of different names), the probe is a well-formed or a hostile line, one time in four a line of the history again (the last one, or an earlier one); plus one dialogue in which the same marked-up probe line is reached through 3 different prefixes (different options with marked-up lines, one prefix containing a line whose markup fails). Oracle: ParseMarkup(probe) on the used parser value equals ParseMarkup(probe) on a fresh value - error/no error, Text, and every attribute incl. Position, Length, properties and SourcePosition; in the dialogue, the probe line's Text and Attributes are equal across prefixes and equal to the fresh-parser result. Non-trivial: the history is non-empty and the probe has >=1 attribute. Distinct by hash of history+probe."
+	return "case = 20 pairs (history, probe line) on one parser value each: the history is 0-8 lines drawn from the well-formed generator of C13 and from the hostile generators of C15 (so histories contain failing parses, including parses that fail after markers were already read and lines with open-form replacement markers of different names), the probe is a well-formed or a hostile line, one time in four a line of the history again (the last one, or an earlier one); every probe is also parsed on a parser value that lives through the whole case (about a hundred lines, several hundred markers); plus one dialogue in which the same marked-up probe line is reached through 3 different prefixes (different options with marked-up lines, one prefix containing a line whose markup fails). Oracle: ParseMarkup(probe) on the used parser value equals ParseMarkup(probe) on a fresh value - error/no error, Text, and every attribute incl. Position, Length, properties and SourcePosition; in the dialogue, the probe line's Text and Attributes are equal across prefixes and equal to the fresh-parser result. Non-trivial: the history is non-empty and the probe has >=1 attribute. Distinct by hash of history+probe."
 }
 
 func (c14) Assumptions() []string {
@@ -80,6 +81,9 @@ func c14Line(c *core.Ctx) (string, string) {
 
 func (p c14) Run(c *core.Ctx) {
 	r := c.R
+	// one parser value lives through the whole case (about 100 lines and several hundred markers): every
+	// probe is also parsed on it
+	var veteran markup.LineParser
 	for i := 0; i < 20; i++ {
 		var used markup.LineParser
 		n := r.Range(0, 8)
@@ -88,6 +92,7 @@ func (p c14) Run(c *core.Ctx) {
 		for k := 0; k < n; k++ {
 			l, kind := c14Line(c)
 			hist = append(hist, l)
+			parseDirect(&veteran, l)
 			_, err, pan := parseDirect(&used, l)
 			if pan != "" {
 				c.Violate("ParseMarkup panicked on a history line", map[string]any{"line_quoted": fmt.Sprintf("%q", l), "panic": pan})
@@ -115,6 +120,13 @@ func (p c14) Run(c *core.Ctx) {
 		var fresh markup.LineParser
 		want, werr, wpan := parseDirect(&fresh, probe)
 		got, gerr, gpan := parseDirect(&used, probe)
+		vgot, verr, vpan := parseDirect(&veteran, probe)
+		if vpan == "" && wpan == "" && ((werr == nil) != (verr == nil) || werr == nil && !resultEqual(want, vgot)) {
+			c.Violate("the result of parsing a line depends on what the parser value parsed before (a parser value that has parsed about a hundred lines)", map[string]any{
+				"probe_quoted": fmt.Sprintf("%q", probe), "lines_parsed_before": i*5 + n, "fresh_error": fmt.Sprint(werr), "veteran_error": fmt.Sprint(verr)})
+			return
+		}
+		c.Feature("veteran-parser-comparisons")
 		c.Feature("pairs")
 		if n >= 4 {
 			c.Feature("history-length>=4")
